@@ -224,14 +224,13 @@ CHECKS = {
  'C17': ('Coq proof (Gauss-Jordan inverse correct for every order n; null vector => Singular) + per-run '
          'correspondence of the exact model with linalg.inv evaluated inside Coq',
          'Machine-checked theorems about an exact-rational model of the Gauss-Jordan algorithm (left and right '
-         'inverse for every order, completeness of the singular exit, collinear points => singular fit), closed '
+         'inverse for every order; Singular IF AND ONLY IF the input has a non-trivial null vector, hence total on '
+         'regular input; collinear points => singular fit), closed '
          'under the global context; the model is tied to the current source by evaluating `agree` (entrywise and '
          'residual bound 64 n cond eps against the exact inverse; raised <-> Singular) in Coq on inputs run through '
          'the implementation on every run.',
-         'Floating-point rounding is outside the theorems (bound measured, not proved). PARTIAL: the converse of the '
-         'completeness theorem (the exact algorithm reports Singular ONLY for singular matrices, i.e. totality on '
-         'regular input) is not proved; it is exercised by the correspondence (every generated regular matrix is '
-         'inverted by model and implementation). Trusted: Coq kernel + vm_compute, the python harness, the K1 '
+         'Floating-point rounding is outside the theorems (bound measured, not proved). Trusted: Coq kernel + '
+         'vm_compute, the python harness, the K1 '
          'classifier. Known finding K1 (rounding hides zero pivots).',
          'DESIGN.md section 6 (C17)'),
 }
